@@ -32,11 +32,10 @@ structure GSess.Laws (c : Codec) (S : GSess) : Prop where
   kRecv : ∀ sbn, sbn < S.n → (if sbn < S.nL % U32 then S.aL % U32 else S.aS % U32) = S.K sbn
   dSrc : (S.o.scheme = .noCode ∨ S.o.scheme = .rs28 ∨ S.o.scheme = .rs28us) →
           ∀ sbn, sbn < S.n → S.D sbn = genuineConcat (S.sym sbn) 0 (S.K sbn)
-  codec : ∀ sbn, sbn < S.n → CodecOK c (S.sym sbn) (S.K sbn) S.o.e sbn (S.D sbn)
+  codec : ∀ sbn, sbn < S.n → CodecOK c S.o.scheme (S.sym sbn) (S.K sbn) S.o.e sbn (S.D sbn)
   pre0 : S.pre 0 = []
   preS : ∀ sbn, sbn < S.n → S.pre (sbn + 1) = S.pre sbn ++ trimTo (S.T.length - (S.pre sbn).length) (S.D sbn)
   preN : S.pre S.n = S.T
-  zero : S.T.length = 0 → S.n = 0
 
 theorem GSess.Laws.pre_prefix {c : Codec} {S : GSess} (L : S.Laws c) (i : Nat) (hi : i ≤ S.n) : S.pre i <+: S.T := by
   have key : ∀ d, i + d = S.n → S.pre i <+: S.pre S.n := by
@@ -50,18 +49,35 @@ theorem GSess.Laws.pre_prefix {c : Codec} {S : GSess} (L : S.Laws c) (i : Nat) (
   rw [← L.preN]
   exact key (S.n - i) (by omega)
 
-abbrev BOK (S : GSess) (sbn : Nat) (b : Block) : Prop := BlockOK (S.sym sbn) (S.K sbn) S.o.e sbn (S.D sbn) b
+abbrev BOK (S : GSess) (sbn : Nat) (b : Block) : Prop := BlockOK S.o.scheme (S.sym sbn) (S.K sbn) S.o.e sbn (S.D sbn) b
 
 def Part (S : GSess) (st : St) : Prop :=
   st.aLarge = S.aL ∧ st.aSmall = S.aS ∧ st.nbALarge = S.nL ∧ st.nbBlocks = S.n
+
+/-- a genuine packet of the object: FTI / cenc (when present) are the sender's, the payload is the sender's symbol for the
+    (SBN, ESI) the payload ID announces, RS under-specified: the announced source block length is the block's -/
+def GenPkt (S : GSess) (p : Pkt) : Prop :=
+  (p.fti = none ∨ p.fti = some (S.o, S.T.length)) ∧ (p.cenc = none ∨ p.cenc = some .null) ∧
+  ∃ pid, parsePayloadId S.o p = .ok (some pid) ∧
+    (S.T.length ≠ 0 → pid.sbn < S.n ∧ p.payload = S.sym pid.sbn pid.esi ∧ (pid.sbl = none ∨ pid.sbl = some (S.K pid.sbn)))
+
+/-- a genuine FDT entry for the object -/
+def GenFile (S : GSess) (f : FileEntry) : Prop :=
+  (f.oti = none ∨ f.oti = some S.o) ∧ f.tl = S.T.length ∧ f.cenc = .null
+
+def GenOp (S : GSess) : Op → Prop
+  | .push p => GenPkt S p
+  | .attach _ none => True
+  | .attach _ (some f) => GenFile S f
 
 /-- what is known of the object is the sender's; blocks stay within the partition -/
 structure GStat (S : GSess) (st : St) : Prop where
   oti : st.oti = none ∨ st.oti = some S.o
   tl : st.tl = none ∨ st.tl = some S.T.length
   cenc : st.cenc = none ∨ st.cenc = some .null
-  part : st.oti ≠ none → st.tl ≠ none → st.nbBlock = 0 ∨ Part S st
+  part : st.nbBlocks ≠ 0 → Part S st
   room : st.blocksOffset + st.blocks.length ≤ S.n
+  cacheGen : ∀ p, p ∈ st.cache → GenPkt S p
 
 structure GInv (S : GSess) (st : St) : Prop extends GStat S st where
   blocks : ∀ i blk, st.blocks[i]? = some blk → BOK S (st.blocksOffset + i) blk
@@ -69,7 +85,7 @@ structure GInv (S : GSess) (st : St) : Prop extends GStat S st where
   closed : st.writer = some .closed → st.written = S.T
 
 theorem ginv_new (S : GSess) (toi m : Nat) : GInv S (St.new toi m) := by
-  refine ⟨⟨.inl rfl, .inl rfl, .inl rfl, fun h => absurd rfl h, by simp [St.new]⟩, ?_, ?_, ?_⟩ <;> simp [St.new]
+  refine ⟨⟨.inl rfl, .inl rfl, .inl rfl, fun h => absurd rfl h, by simp [St.new], by simp [St.new]⟩, ?_, ?_, ?_⟩ <;> simp [St.new]
 
 /-- fields the G-invariant reads -/
 structure SameG (st st' : St) : Prop where
@@ -85,16 +101,15 @@ structure SameG (st st' : St) : Prop where
   writer : st'.writer = st.writer
   out : st'.out = st.out
   bw : st'.bw = st.bw
+  cache : st'.cache = st.cache
 
-theorem SameG.refl (st : St) : SameG st st := ⟨rfl, rfl, rfl, rfl, rfl, rfl, rfl, rfl, rfl, rfl, rfl, rfl⟩
+theorem SameG.refl (st : St) : SameG st st := ⟨rfl, rfl, rfl, rfl, rfl, rfl, rfl, rfl, rfl, rfl, rfl, rfl, rfl⟩
 
 theorem GStat.sameG {S : GSess} {st st' : St} (h : GStat S st) (s : SameG st st') : GStat S st' := by
-  refine ⟨by rw [s.oti]; exact h.oti, by rw [s.tl]; exact h.tl, by rw [s.cenc]; exact h.cenc, ?_, ?_⟩
-  · rw [s.oti, s.tl]
-    intro a b
-    cases h.part a b with
-    | inl x => left; simpa [St.nbBlock, s.off, s.blocks] using x
-    | inr x => right; simpa [Part, s.aLarge, s.aSmall, s.nbALarge, s.nbBlocks] using x
+  refine ⟨by rw [s.oti]; exact h.oti, by rw [s.tl]; exact h.tl, by rw [s.cenc]; exact h.cenc, ?_, ?_, by rw [s.cache]; exact h.cacheGen⟩
+  · rw [s.nbBlocks]
+    intro a
+    simpa [Part, s.aLarge, s.aSmall, s.nbALarge, s.nbBlocks] using h.part a
   · rw [s.off, s.blocks]; exact h.room
 
 theorem GInv.sameG {S : GSess} {st st' : St} (h : GInv S st) (s : SameG st st') : GInv S st' := by
@@ -115,12 +130,10 @@ theorem ginv_error {S : GSess} {st : St} (i : Bool) (h : GStat S st) (hl : Live 
   have e4 : (error st i).blocks = [] := by unfold error; cases st.writer <;> simp
   have e5 : (error st i).aLarge = st.aLarge ∧ (error st i).aSmall = st.aSmall ∧ (error st i).nbALarge = st.nbALarge ∧
       (error st i).nbBlocks = st.nbBlocks := by unfold error; cases st.writer <;> simp
-  refine ⟨⟨by rw [e1]; exact h.oti, by rw [e2]; exact h.tl, by rw [e3]; exact h.cenc, ?_, ?_⟩, ?_, ?_, ?_⟩
-  · rw [e1, e2]
-    intro a b
-    cases h.part a b with
-    | inl x => left; simp only [St.nbBlock, error_off, e4] at x ⊢; simp at x ⊢; omega
-    | inr x => right; simpa [Part, e5.1, e5.2.1, e5.2.2.1, e5.2.2.2] using x
+  refine ⟨⟨by rw [e1]; exact h.oti, by rw [e2]; exact h.tl, by rw [e3]; exact h.cenc, ?_, ?_, by simp⟩, ?_, ?_, ?_⟩
+  · rw [e5.2.2.2]
+    intro a
+    simpa [Part, e5.1, e5.2.1, e5.2.2.1, e5.2.2.2] using h.part a
   · have := h.room; simp only [error_off, e4]; simp; omega
   · rw [e4]; intro i blk hb; simp at hb
   · intro ho; exact absurd ho hw.1
@@ -134,12 +147,10 @@ theorem ginv_complete {S : GSess} {st : St} (h : GStat S st) (hl : Live st)
   have e4 : (complete st).blocks = [] := by unfold complete; cases st.writer <;> simp
   have e5 : (complete st).aLarge = st.aLarge ∧ (complete st).aSmall = st.aSmall ∧ (complete st).nbALarge = st.nbALarge ∧
       (complete st).nbBlocks = st.nbBlocks := by unfold complete; cases st.writer <;> simp
-  refine ⟨⟨by rw [e1]; exact h.oti, by rw [e2]; exact h.tl, by rw [complete_cenc]; exact h.cenc, ?_, ?_⟩, ?_, ?_, ?_⟩
-  · rw [e1, e2]
-    intro a b
-    cases h.part a b with
-    | inl x => left; simp only [St.nbBlock, complete_off, e4] at x ⊢; simp at x ⊢; omega
-    | inr x => right; simpa [Part, e5.1, e5.2.1, e5.2.2.1, e5.2.2.2] using x
+  refine ⟨⟨by rw [e1]; exact h.oti, by rw [e2]; exact h.tl, by rw [complete_cenc]; exact h.cenc, ?_, ?_, by simp⟩, ?_, ?_, ?_⟩
+  · rw [e5.2.2.2]
+    intro a
+    simpa [Part, e5.1, e5.2.1, e5.2.2.1, e5.2.2.2] using h.part a
   · have := h.room; simp only [complete_off, e4]; simp; omega
   · rw [e4]; intro i blk hb; simp at hb
   · intro ho
@@ -152,12 +163,10 @@ theorem ginv_complete {S : GSess} {st : St} (h : GStat S st) (hl : Live st)
     | inr hop => rw [complete_written]; exact hx hop
 
 theorem GStat.wr {S : GSess} {st st' : St} (h : GStat S st) (w : Wr st st') : GStat S st' := by
-  refine ⟨by rw [w.same.oti]; exact h.oti, by rw [w.same.tl]; exact h.tl, by rw [w.same.cenc]; exact h.cenc, ?_, ?_⟩
-  · rw [w.same.oti, w.same.tl]
-    intro a b
-    cases h.part a b with
-    | inl x => left; simpa [St.nbBlock, w.off, w.same.blocks] using x
-    | inr x => right; simpa [Part, w.same.aLarge, w.same.aSmall, w.same.nbALarge, w.same.nbBlocks] using x
+  refine ⟨by rw [w.same.oti]; exact h.oti, by rw [w.same.tl]; exact h.tl, by rw [w.same.cenc]; exact h.cenc, ?_, ?_, by rw [w.cache]; exact h.cacheGen⟩
+  · rw [w.same.nbBlocks]
+    intro a
+    simpa [Part, w.same.aLarge, w.same.aSmall, w.same.nbALarge, w.same.nbBlocks] using h.part a
   · rw [w.off, w.same.blocks]; exact h.room
 
 theorem ginv_popBlock {S : GSess} {st : St} (hg : GInv S st) (off : Nat) (blk : Block) (hoff : off < st.blocks.length) :
@@ -169,11 +178,8 @@ theorem ginv_popBlock {S : GSess} {st : St} (hg : GInv S st) (off : Nat) (blk : 
     cases hb : st.blocks with
     | nil => simp [hb] at hoff
     | cons b0 rest =>
-      refine ⟨⟨hg.oti, hg.tl, hg.cenc, ?_, ?_⟩, ?_, hg.opened, hg.closed⟩
-      · intro a b
-        cases hg.part a b with
-        | inl x => simp [St.nbBlock, hb] at x
-        | inr x => right; exact x
+      refine ⟨⟨hg.oti, hg.tl, hg.cenc, ?_, ?_, hg.cacheGen⟩, ?_, hg.opened, hg.closed⟩
+      · exact hg.part
       · have := hg.room; simp [hb] at this ⊢; omega
       · intro i b hi
         simp only [hb, List.tail_cons] at hi
@@ -182,11 +188,8 @@ theorem ginv_popBlock {S : GSess} {st : St} (hg : GInv S st) (off : Nat) (blk : 
         simp only []
         rw [e]; exact this
   · -- deallocate
-    refine ⟨⟨hg.oti, hg.tl, hg.cenc, ?_, ?_⟩, ?_, hg.opened, hg.closed⟩
-    · intro a b
-      cases hg.part a b with
-      | inl x => left; simpa [St.nbBlock] using x
-      | inr x => right; exact x
+    refine ⟨⟨hg.oti, hg.tl, hg.cenc, ?_, ?_, hg.cacheGen⟩, ?_, hg.opened, hg.closed⟩
+    · exact hg.part
     · simpa using hg.room
     · intro i b hi
       simp only [List.getElem?_set] at hi
@@ -311,5 +314,575 @@ theorem ginv_writeLoop (P : Params) (S : GSess) (L : S.Laws P.codec) (fuel : Nat
                     have jinv1 : JInv P st1 := by
                       refine ⟨?_, fun _ => jo1, ?_, ?_⟩ <;> simp [h1'.2]
                     exact ih _ _ hpb.1 ho2 (jinv1.sameJ sj) hg2 h
+
+theorem ginv_writeBlocks (P : Params) (S : GSess) (L : S.Laws P.codec) (st : St) (sbn : Nat) {st' : St} {b : Bool}
+    (hi : Inv st) (hj : JInv P st) (hg : GInv S st) (h : writeBlocks P st sbn = .ok (st', b)) :
+    (b = true → GInv S st') ∧ GStat S st' := by
+  unfold writeBlocks at h
+  split at h
+  · simp at h; obtain ⟨rfl, rfl⟩ := h; exact ⟨fun _ => hg, hg.toGStat⟩
+  · rename_i ws hws
+    split at h
+    · simp at h; obtain ⟨rfl, rfl⟩ := h; exact ⟨fun _ => hg, hg.toGStat⟩
+    · rename_i hne
+      have ho : st.writer = some .opened := by
+        rw [hws]; cases ws <;> simp_all
+      split at h
+      · simp at h; obtain ⟨rfl, rfl⟩ := h; exact ⟨fun _ => hg, hg.toGStat⟩
+      · exact ginv_writeLoop _ _ L _ _ _ hi ho hj hg h
+
+theorem sameG_setError (st : St) : SameG st { st with state := .error } := ⟨rfl, rfl, rfl, rfl, rfl, rfl, rfl, rfl, rfl, rfl, rfl, rfl, rfl⟩
+
+theorem sameG_allocBlock (P : Params) (st : St) (o : Oti) (tl : Nat) (pid : PayloadId) (blk : Block)
+    {st' : St} {r : Option Block} (h : allocBlock P st o tl pid blk = .ok (st', r)) : SameG st st' := by
+  unfold allocBlock at h
+  split at h
+  · simp at h; rw [← h.1]; exact SameG.refl _
+  · dsimp only at h
+    split at h
+    · simp at h
+    · split at h
+      · simp at h
+      · split at h
+        · simp at h; rw [← h.1]; exact ⟨rfl, rfl, rfl, rfl, rfl, rfl, rfl, rfl, rfl, rfl, rfl, rfl, rfl⟩
+        · split at h
+          · simp at h; rw [← h.1]; exact ⟨rfl, rfl, rfl, rfl, rfl, rfl, rfl, rfl, rfl, rfl, rfl, rfl, rfl⟩
+          · split at h
+            · simp at h
+            · simp at h; rw [← h.1]; exact ⟨rfl, rfl, rfl, rfl, rfl, rfl, rfl, rfl, rfl, rfl, rfl, rfl, rfl⟩
+
+/-- the block returned by the allocation step only ever saw genuine symbols -/
+theorem bok_allocBlock (P : Params) (S : GSess) (L : S.Laws P.codec) (st : St) (tl : Nat) (pid : PayloadId) (blk : Block)
+    {st' : St} {b : Block} (hpart : Part S st) (hsbn : pid.sbn < S.n)
+    (hsbl : pid.sbl = none ∨ pid.sbl = some (S.K pid.sbn)) (hb : BOK S pid.sbn blk)
+    (h : allocBlock P st S.o tl pid blk = .ok (st', some b)) : BOK S pid.sbn b := by
+  have hk : sblOf st pid = S.K pid.sbn := by
+    unfold sblOf
+    cases hsbl with
+    | inl hn => rw [hn]; simp only; rw [hpart.1, hpart.2.1, hpart.2.2.1]; exact L.kRecv _ hsbn
+    | inr hs => rw [hs]
+  unfold allocBlock at h
+  split at h
+  · simp at h; rw [← h.2]; exact hb
+  · dsimp only at h
+    rw [hk] at h
+    split at h
+    · simp at h
+    · split at h
+      · simp at h
+      · split at h
+        · simp at h
+        · split at h
+          · simp at h
+          · rename_i b1 hinit
+            split at h
+            · simp at h
+            · simp at h; rw [← h.2]
+              exact blockOK_init P.codec S.o _ blk b1 (fun hs => L.dSrc hs _ hsbn) hb hinit
+
+theorem sameG_growBlocks_fields (st : St) (off : Nat) :
+    (growBlocks st off).oti = st.oti ∧ (growBlocks st off).tl = st.tl ∧ (growBlocks st off).cenc = st.cenc ∧
+    (growBlocks st off).blocksOffset = st.blocksOffset ∧ (growBlocks st off).aLarge = st.aLarge ∧
+    (growBlocks st off).aSmall = st.aSmall ∧ (growBlocks st off).nbALarge = st.nbALarge ∧
+    (growBlocks st off).nbBlocks = st.nbBlocks ∧ (growBlocks st off).writer = st.writer ∧
+    (growBlocks st off).out = st.out ∧ (growBlocks st off).bw = st.bw ∧ (growBlocks st off).cache = st.cache := by
+  unfold growBlocks; split <;> simp
+
+theorem ginv_growBlocks {S : GSess} {st : St} (hg : GInv S st) (off : Nat) (hroom : st.blocksOffset + off < S.n) :
+    GInv S (growBlocks st off) ∧ off < (growBlocks st off).blocks.length := by
+  have f := sameG_growBlocks_fields st off
+  unfold growBlocks at f ⊢
+  split
+  · rename_i hle
+    refine ⟨⟨⟨hg.oti, hg.tl, hg.cenc, hg.part, ?_, hg.cacheGen⟩, ?_, hg.opened, hg.closed⟩, ?_⟩
+    · simp; omega
+    · intro i blk hi
+      simp only [List.getElem?_append] at hi
+      split at hi
+      · exact hg.blocks i blk hi
+      · rw [List.getElem?_replicate] at hi
+        split at hi
+        · simp at hi; rw [← hi]; exact blockOK_fresh _ _ _ _ _ _
+        · simp at hi
+    · simp; omega
+  · rename_i hle
+    exact ⟨hg, by omega⟩
+
+theorem ginv_setBlock {S : GSess} {st : St} (hg : GInv S st) (off : Nat) (b : Block)
+    (hb : BOK S (st.blocksOffset + off) b) : GInv S { st with blocks := st.blocks.set off b } := by
+  refine ⟨⟨hg.oti, hg.tl, hg.cenc, hg.part, by simpa using hg.room, hg.cacheGen⟩, ?_, hg.opened, hg.closed⟩
+  intro i blk hi
+  simp only [List.getElem?_set] at hi
+  split at hi
+  · rename_i he
+    split at hi
+    · simp at hi; rw [← hi, ← he]; exact hb
+    · simp at hi
+  · exact hg.blocks i blk hi
+
+theorem ginv_pushToBlock2 (P : Params) (S : GSess) (L : S.Laws P.codec) (st : St) (p : Pkt) {st' : St} {b : Bool}
+    (hi : Inv st) (hl : Live st) (hj : JInv P st) (hg : GInv S st) (hp : GenPkt S p)
+    (h : pushToBlock2 P st p = .ok (st', b)) : (b = true → GInv S st') ∧ GStat S st' := by
+  obtain ⟨_, _, pid, hparse, hgen⟩ := hp
+  have ho : st.oti = some S.o := by
+    cases hg.oti with
+    | inl hn => simp [pushToBlock2, hn] at h
+    | inr hs => exact hs
+  have htl : st.tl = some S.T.length := by
+    cases hg.tl with
+    | inl hn => simp [pushToBlock2, ho, hn] at h
+    | inr hs => exact hs
+  unfold pushToBlock2 at h
+  split at h
+  rotate_left
+  · simp at h
+  rename_i o tl ho' htl'
+  have eo : o = S.o := by rw [ho] at ho'; simpa using ho'.symm
+  have et : tl = S.T.length := by rw [htl] at htl'; simpa using htl'.symm
+  subst eo; subst et
+  rw [hparse] at h
+  dsimp only at h
+  split at h
+  · rename_i hz
+    split at h
+    · simp at h
+    · simp at h; obtain ⟨rfl, rfl⟩ := h
+      have : GInv S (complete st) := by
+        apply ginv_complete hg.toGStat hl
+        intro hop
+        obtain ⟨T, C, h1, h2, h3, _⟩ := (hj.opened hop).ex
+        have hT : T = 0 := by rw [htl] at h1; simp at h1; omega
+        rw [(h3 hT).2]
+        exact (List.eq_nil_of_length_eq_zero hz).symm
+      exact ⟨fun _ => this, this.toGStat⟩
+  · rename_i hnz
+    obtain ⟨hsbn, hpay, hsbl⟩ := hgen hnz
+    split at h
+    · simp at h; obtain ⟨rfl, rfl⟩ := h; exact ⟨fun _ => hg, hg.toGStat⟩
+    · rename_i hnb
+      have hpart : Part S st := hg.part (by omega)
+      split at h
+      · simp at h; obtain ⟨rfl, rfl⟩ := h; exact ⟨fun _ => hg, hg.toGStat⟩
+      · rename_i hge
+        split at h
+        · simp at h; obtain ⟨rfl, rfl⟩ := h
+          exact ⟨fun hf => (by cases hf), hg.toGStat.sameG (sameG_setError _)⟩
+        · have e0 : st.blocksOffset + (pid.sbn - st.blocksOffset) = pid.sbn := by omega
+          have hgr := ginv_growBlocks hg (pid.sbn - st.blocksOffset) (by omega)
+          have fgr := sameG_growBlocks_fields st (pid.sbn - st.blocksOffset)
+          have q0 := quietJ_growBlocks st (pid.sbn - st.blocksOffset)
+          split at h
+          · simp at h
+          · rename_i blk hblk
+            have hbok : BOK S pid.sbn blk := by
+              have := hgr.1.blocks _ _ hblk
+              rw [fgr.2.2.2.1, e0] at this; exact this
+            split at h
+            · simp at h; obtain ⟨rfl, rfl⟩ := h; exact ⟨fun _ => hgr.1, hgr.1.toGStat⟩
+            · have hpartg : Part S (growBlocks st (pid.sbn - st.blocksOffset)) := by
+                unfold Part
+                rw [fgr.2.2.2.2.1, fgr.2.2.2.2.2.1, fgr.2.2.2.2.2.2.1, fgr.2.2.2.2.2.2.2.1]
+                exact hpart
+              split at h
+              · simp at h
+              · rename_i st1 heq
+                simp at h; obtain ⟨rfl, rfl⟩ := h
+                exact ⟨fun hf => (by cases hf), hgr.1.toGStat.sameG (sameG_allocBlock _ _ _ _ _ _ heq)⟩
+              · rename_i st1 b1 heq
+                have sg1 := sameG_allocBlock _ _ _ _ _ _ heq
+                have hg1 : GInv S st1 := hgr.1.sameG sg1
+                have hb1 : BOK S pid.sbn b1 := bok_allocBlock P S L _ _ pid blk hpartg hsbn hsbl hbok heq
+                have q1 := q0.trans (quietJ_allocBlock _ _ _ _ _ _ heq)
+                split at h
+                · simp at h
+                · rename_i b2 hpush
+                  rw [hpay] at hpush
+                  have hb2 : BOK S pid.sbn b2 := blockOK_push P.codec (L.codec _ hsbn) b1 b2 pid.esi hb1 hpush
+                  have hoff1 : st1.blocksOffset = st.blocksOffset := sg1.off.trans fgr.2.2.2.1
+                  have hg2 : GInv S { st1 with blocks := st1.blocks.set (pid.sbn - st.blocksOffset) b2 } :=
+                    ginv_setBlock hg1 _ b2 (by rw [hoff1, e0]; exact hb2)
+                  have q2 : QuietJ st { st1 with blocks := st1.blocks.set (pid.sbn - st.blocksOffset) b2 } :=
+                    q1.trans ⟨⟨rfl, rfl, rfl, rfl, rfl, rfl, .inl rfl, rfl, rfl⟩, ⟨rfl, rfl, rfl, rfl, rfl, rfl, rfl⟩⟩
+                  split at h
+                  · exact ginv_writeBlocks _ _ L _ _ (hi.quiet q2.q) (hj.sameJ q2.j) hg2 h
+                  · simp at h; obtain ⟨rfl, rfl⟩ := h
+                    exact ⟨fun _ => hg2, hg2.toGStat⟩
+
+theorem ginv_pushToBlock (P : Params) (S : GSess) (L : S.Laws P.codec) (st : St) (p : Pkt) {st' : St} {b : Bool}
+    (hi : Inv st) (hl : Live st) (hj : JInv P st) (hg : GInv S st) (hp : GenPkt S p)
+    (h : pushToBlock P st p = .ok (st', b)) : (b = true → GInv S st') ∧ GStat S st' := by
+  unfold pushToBlock at h
+  split at h
+  · simp at h
+  · rename_i heq
+    simp at h; obtain ⟨rfl, rfl⟩ := h
+    exact ginv_pushToBlock2 _ _ L _ _ hi hl hj hg hp heq
+  · rename_i heq
+    have h1 := inv_pushToBlock2 _ _ _ hi hl heq
+    have g1 := (ginv_pushToBlock2 _ _ L _ _ hi hl hj hg hp heq).1 rfl
+    split at h
+    · rename_i hc
+      simp at h; obtain ⟨rfl, rfl⟩ := h
+      have := ginv_error (S := S) true g1.toGStat (h1.1.live_of_receiving hc.2)
+      exact ⟨fun _ => this, this.toGStat⟩
+    · simp at h; obtain ⟨rfl, rfl⟩ := h
+      exact ⟨fun _ => g1, g1.toGStat⟩
+
+theorem ginv_cacheLoop (P : Params) (S : GSess) (L : S.Laws P.codec) (fuel : Nat) (st : St) {st' : St}
+    (hi : Inv st) (hj : JInv P st) (hg : GInv S st) (h : cacheLoop P fuel st = .ok st') : GInv S st' := by
+  induction fuel generalizing st with
+  | zero => simp [cacheLoop] at h; rw [← h]; exact hg
+  | succ n ih =>
+    unfold cacheLoop at h
+    split at h
+    · simp at h; rw [← h]; exact hg
+    · rename_i pk rest hc
+      have hl : Live st := hi.live_of_cache (by simp [hc])
+      have hi2 : Inv { st with cache := rest } := by
+        refine ⟨hi.noIdle, hi.ps, ?_, hi.bwOff, hi.fdt⟩
+        intro t
+        have := hi.term t
+        simp [hc] at this
+      have hl2 : Live { st with cache := rest } := hl
+      have hj2 : JInv P { st with cache := rest } := hj.sameJ ⟨rfl, rfl, rfl, rfl, rfl, rfl, rfl⟩
+      have hg2 : GInv S { st with cache := rest } := by
+        refine ⟨⟨hg.oti, hg.tl, hg.cenc, hg.part, hg.room, ?_⟩, hg.blocks, hg.opened, hg.closed⟩
+        intro q hq; exact hg.cacheGen q (by rw [hc]; simp [hq])
+      have hpk : GenPkt S pk := hg.cacheGen pk (by rw [hc]; simp)
+      split at h
+      · simp at h
+      · rename_i heq
+        simp at h; rw [← h]
+        have i1 := inv_pushToBlock _ _ _ hi2 hl2 heq
+        exact ginv_error _ (ginv_pushToBlock _ _ L _ _ hi2 hl2 hj2 hg2 hpk heq).2 (i1.2 rfl)
+      · rename_i heq
+        have i1 := inv_pushToBlock _ _ _ hi2 hl2 heq
+        have j1 := (jinv_pushToBlock _ _ _ hi2 hl2 hj2 heq).1 rfl
+        exact ih _ i1.1 j1 ((ginv_pushToBlock _ _ L _ _ hi2 hl2 hj2 hg2 hpk heq).1 rfl) h
+
+theorem ginv_pushFromCache (P : Params) (S : GSess) (L : S.Laws P.codec) (st : St) {st' : St}
+    (hi : Inv st) (hj : JInv P st) (hg : GInv S st) (h : pushFromCache P st = .ok st') : GInv S st' := by
+  unfold pushFromCache at h
+  split at h
+  · simp at h; rw [← h]; exact hg
+  · split at h
+    · simp at h
+    · rename_i heq
+      simp at h; rw [← h]
+      exact (ginv_cacheLoop _ _ L _ _ hi hj hg heq).sameG ⟨rfl, rfl, rfl, rfl, rfl, rfl, rfl, rfl, rfl, rfl, rfl, rfl, rfl⟩
+
+/-- `init_blocks_partitioning` with the sender's OTI and transfer length computes the sender's partition -/
+theorem ginv_initBlocksPartitioning {c : Codec} (S : GSess) (L : S.Laws c) (st : St) {st' : St}
+    (hg : GInv S st) (h : initBlocksPartitioning st = .ok st') : GInv S st' := by
+  unfold initBlocksPartitioning at h
+  split at h
+  · simp at h; rw [← h]; exact hg
+  · rename_i hnb
+    have hz : st.blocksOffset = 0 ∧ st.blocks = [] := by
+      simp [St.nbBlock] at hnb
+      exact ⟨hnb.1, hnb.2⟩
+    split at h
+    · rename_i o tl ho htl
+      have eo : o = S.o := by
+        cases hg.oti with
+        | inl x => rw [x] at ho; simp at ho
+        | inr x => rw [x] at ho; simpa using ho.symm
+      have et : tl = S.T.length := by
+        cases hg.tl with
+        | inl x => rw [x] at htl; simp at htl
+        | inr x => rw [x] at htl; simpa using htl.symm
+      subst eo; subst et
+      rw [L.quad] at h
+      simp [liftRs] at h
+      subst h
+      refine ⟨⟨hg.oti, hg.tl, hg.cenc, fun _ => ⟨rfl, rfl, rfl, rfl⟩, ?_, hg.cacheGen⟩, ?_, ?_, hg.closed⟩
+      · simp [hz.1]; omega
+      · intro i blk hi
+        simp only [List.getElem?_replicate] at hi
+        split at hi
+        · simp at hi; rw [← hi]; exact blockOK_fresh _ _ _ _ _ _
+        · simp at hi
+      · exact hg.opened
+    · simp at h; rw [← h]; exact hg
+
+theorem ginv_error0 {S : GSess} {st : St} (i : Bool) (h : GStat S st) : GInv S (error st i) := by
+  cases hx : st.writer with
+  | none => exact ginv_error i h (Or.inl hx)
+  | some ws =>
+    -- the writer field is overwritten with `error` whatever it was
+    have key : GInv S (error { st with writer := some .opened } i) :=
+      ginv_error (st := { st with writer := some .opened }) i
+        ⟨h.oti, h.tl, h.cenc, h.part, h.room, h.cacheGen⟩ (Or.inr rfl)
+    have e : error st i = { error { st with writer := some .opened } i with out := (error st i).out } := by
+      unfold error; simp [hx]
+    rw [e]
+    refine ⟨⟨key.oti, key.tl, key.cenc, key.part, key.room, key.cacheGen⟩, key.blocks, ?_, ?_⟩
+    · intro ho; simp at ho
+    · intro hc; simp at hc
+
+theorem ginv_setFromPkt {S : GSess} (st : St) (p : Pkt) (hg : GInv S st) (hp : GenPkt S p) :
+    GInv S (setOtiFromPkt (setCencFromPkt st p) p) := by
+  obtain ⟨hfti, hcenc, _⟩ := hp
+  have g1 : GInv S (setCencFromPkt st p) := by
+    unfold setCencFromPkt
+    split
+    · exact hg
+    · refine ⟨⟨hg.oti, hg.tl, ?_, hg.part, hg.room, hg.cacheGen⟩, hg.blocks, hg.opened, hg.closed⟩
+      exact hcenc
+  unfold setOtiFromPkt
+  split
+  · exact g1
+  · split
+    · exact g1
+    · rename_i o tl hf
+      have : o = S.o ∧ tl = S.T.length := by
+        cases hfti with
+        | inl x => rw [x] at hf; simp at hf
+        | inr x => rw [x] at hf; simp at hf; exact ⟨hf.1.symm, hf.2.symm⟩
+      obtain ⟨rfl, rfl⟩ := this
+      refine ⟨⟨.inr rfl, ?_, g1.cenc, g1.part, g1.room, g1.cacheGen⟩, g1.blocks, g1.opened, g1.closed⟩
+      simp only
+      split
+      · exact .inr rfl
+      · exact g1.tl
+
+theorem ginv_cachePkt {S : GSess} (st : St) (p : Pkt) (hg : GInv S st) (hp : GenPkt S p) : GInv S (cachePkt st p).1 := by
+  unfold cachePkt
+  split
+  · exact hg
+  · split
+    · exact hg
+    · refine ⟨⟨hg.oti, hg.tl, hg.cenc, hg.part, hg.room, ?_⟩, hg.blocks, hg.opened, hg.closed⟩
+      intro q hq
+      simp at hq
+      cases hq with
+      | inl x => rw [x]; exact hp
+      | inr x => exact hg.cacheGen q x
+
+theorem ginv_openWriter {P : Params} {S : GSess} (L : S.Laws P.codec) (pl : Plan) (st : St) (tl : Nat) (cenc : Cenc) {st' : St}
+    (hw : st.writer = none) (hj : JInv P st) (hg : GInv S st)
+    (h : openWriter pl st tl cenc = .ok st') : GInv S st' := by
+  have h0 := hj.none_ hw
+  unfold openWriter at h
+  dsimp only at h
+  split at h
+  · simp at h
+  · rename_i hbw
+    have hbw0 : st.bw = none := by
+      cases hb : st.bw with
+      | none => rfl
+      | some x => simp [hb] at hbw
+    split at h
+    · simp at h; subst h
+      exact ginv_error0 false ⟨hg.oti, hg.tl, hg.cenc, hg.part, hg.room, hg.cacheGen⟩
+    · simp at h; subst h
+      refine ⟨⟨hg.oti, hg.tl, hg.cenc, hg.part, hg.room, hg.cacheGen⟩, hg.blocks, ?_, ?_⟩
+      · intro _ w hwb
+        have hwr : writtenOf st.out = [] := h0.1
+        simp only at hwb
+        split at hwb
+        · rw [hbw0] at hwb; simp at hwb
+        · simp at hwb; rw [← hwb]
+          simp [BW.new, St.written, writtenOf, hwr, L.pre0]
+      · intro hc; simp at hc
+
+theorem ginv_initObjectWriter (P : Params) (S : GSess) (L : S.Laws P.codec) (st : St) {st' : St}
+    (hj : JInv P st) (hg : GInv S st) (h : initObjectWriter P st = .ok st') : GInv S st' := by
+  unfold initObjectWriter at h
+  split at h
+  · simp at h; rw [← h]; exact hg
+  · rename_i hws
+    have hw : st.writer = none := by
+      cases hx : st.writer <;> simp_all
+    have h0 := hj.none_ hw
+    split at h
+    · rename_i fid cenc tl o hfid hcenc htl ho
+      dsimp only at h
+      have hj2 : JInv P ({ st with wIdx := st.nBuilder, nBuilder := st.nBuilder + 1, out := WCall.new st.meta (P.env.plan st.nBuilder).ans :: st.out } : St) := by
+        refine ⟨fun _ => ⟨?_, ?_⟩, ?_, ?_, ?_⟩ <;> simp [hw]
+        · simpa [St.written, writtenOf] using h0.1
+        · simpa [noComplete] using h0.2
+      have hg2 : GInv S ({ st with wIdx := st.nBuilder, nBuilder := st.nBuilder + 1, out := WCall.new st.meta (P.env.plan st.nBuilder).ans :: st.out } : St) := by
+        refine ⟨⟨hg.oti, hg.tl, hg.cenc, hg.part, hg.room, hg.cacheGen⟩, hg.blocks, ?_, ?_⟩
+        · intro ho; simp [hw] at ho
+        · intro hc; simp [hw] at hc
+      split at h
+      · simp at h; subst h
+        exact hg2.sameG ⟨rfl, rfl, rfl, rfl, rfl, rfl, rfl, rfl, rfl, rfl, rfl, rfl, rfl⟩
+      · simp at h; subst h
+        exact hg2.sameG ⟨rfl, rfl, rfl, rfl, rfl, rfl, rfl, rfl, rfl, rfl, rfl, rfl, rfl⟩
+      · exact ginv_openWriter L _ _ _ _ (by exact hw) hj2 hg2 h
+    · simp at h; rw [← h]; exact hg
+
+theorem ginv_push (P : Params) (S : GSess) (L : S.Laws P.codec) (st : St) (p : Pkt) {st' : St}
+    (hi : Inv st) (hj : JInv P st) (hg : GInv S st) (hp : GenPkt S p)
+    (h : push P st p = .ok st') : GInv S st' := by
+  unfold push at h
+  split at h
+  · simp at h; rw [← h]; exact hg
+  · rename_i hrec
+    have hl0 : Live st := hi.live_of_receiving (by simpa using hrec)
+    split at h
+    · simp at h
+    · rename_i st1 h1
+      have q01 := (quiet_setCencFromPkt st p).trans (quiet_setOtiFromPkt _ p)
+      have i1 := (inv_initBlocksPartitioning _ (hi.quiet q01) h1).1
+      have j1 : JInv P st1 := (jinv_setFromPkt st p hl0 hj).sameJ (sameJ_initBlocksPartitioning _ h1)
+      have g1 : GInv S st1 := ginv_initBlocksPartitioning S L _ (ginv_setFromPkt st p hg hp) h1
+      split at h
+      · simp at h
+      · rename_i st2 h2
+        have i2 := inv_initObjectWriter _ _ i1 h2
+        have j2 := jinv_initObjectWriter _ _ j1 h2
+        have g2 := ginv_initObjectWriter _ _ L _ j1 g1 h2
+        split at h
+        · simp at h
+        · rename_i st3 h3
+          have i3 := inv_pushFromCache _ _ i2 h3
+          have j3 := jinv_pushFromCache _ _ i2 j2 h3
+          have g3 := ginv_pushFromCache _ _ L _ i2 j2 g2 h3
+          split at h
+          · simp at h; rw [← h]; exact g3
+          · rename_i hr
+            have hl : Live st3 := i3.live_of_receiving (by simpa using hr)
+            split at h
+            · have hc := inv_cachePkt st3 p i3 hl
+              have gc := ginv_cachePkt st3 p g3 hp
+              split at h
+              · rename_i heq
+                simp at h; rw [← h]
+                rw [heq] at gc; exact gc
+              · rename_i heq
+                simp at h; rw [← h]
+                rw [heq] at gc hc
+                exact ginv_error _ gc.toGStat hc.2
+            · split at h
+              · simp at h
+              · rename_i heq
+                simp at h; rw [← h]
+                exact (ginv_pushToBlock _ _ L _ _ i3 hl j3 g3 hp heq).1 rfl
+              · rename_i heq
+                simp at h; rw [← h]
+                have := inv_pushToBlock _ _ _ i3 hl heq
+                exact ginv_error _ (ginv_pushToBlock _ _ L _ _ i3 hl j3 g3 hp heq).2 (this.2 rfl)
+
+theorem ginv_attachMeta {S : GSess} (st : St) (fdtId : Nat) (f : FileEntry) {st' : St}
+    (hw : st.writer = none) (hg : GInv S st) (hf : GenFile S f) (h : attachMeta st fdtId f = .ok st') : GInv S st' := by
+  obtain ⟨f1, f2, f3⟩ := hf
+  unfold attachMeta at h
+  dsimp only at h
+  split at h
+  · simp at h
+  · simp at h; subst h
+    refine ⟨⟨?_, ?_, ?_, hg.part, hg.room, hg.cacheGen⟩, hg.blocks, ?_, ?_⟩
+    · simp only; split
+      · exact f1
+      · exact hg.oti
+    · simp only; split
+      · rw [f2]; exact .inr rfl
+      · exact hg.tl
+    · simp only; split
+      · rw [f3]; exact .inr rfl
+      · exact hg.cenc
+    · intro ho; simp [hw] at ho
+    · intro hc; simp [hw] at hc
+
+theorem ginv_attachFdt (P : Params) (S : GSess) (L : S.Laws P.codec) (st : St) (fdtId : Nat) (file : Option FileEntry)
+    {st' : St} {b : Bool}
+    (hi : Inv st) (hj : JInv P st) (hg : GInv S st) (hf : GenOp S (.attach fdtId file))
+    (h : attachFdt P st fdtId file = .ok (st', b)) : GInv S st' := by
+  unfold attachFdt at h
+  split at h
+  · simp at h; rw [← h.1]; exact hg
+  · rename_i hfd
+    have hw : st.writer = none := by
+      cases hx : st.writer with
+      | none => rfl
+      | some ws =>
+        have := hi.fdt (by simp [hx])
+        cases hy : st.fdtId <;> simp_all
+    split at h
+    · simp at h; rw [← h.1]; exact hg
+    · rename_i f
+      have hgf : GenFile S f := hf
+      split at h
+      · simp at h
+      · rename_i st1 h1
+        have i1 := inv_attachMeta _ _ _ hi h1
+        have j1 := (jinv_attachMeta _ _ _ hw hj h1).1
+        have g1 := ginv_attachMeta _ _ _ hw hg hgf h1
+        split at h
+        · simp at h
+        · rename_i st2 h2
+          have i2 := (inv_initBlocksPartitioning _ i1 h2).1
+          have j2 : JInv P st2 := j1.sameJ (sameJ_initBlocksPartitioning _ h2)
+          have g2 := ginv_initBlocksPartitioning S L _ g1 h2
+          split at h
+          · simp at h
+          · rename_i st3 h3
+            have i3 := inv_initObjectWriter _ _ i2 h3
+            have j3 := jinv_initObjectWriter _ _ j2 h3
+            have g3 := ginv_initObjectWriter _ _ L _ j2 g2 h3
+            split at h
+            · simp at h
+            · rename_i st4 h4
+              have i4 := inv_pushFromCache _ _ i3 h4
+              have j4 := jinv_pushFromCache _ _ i3 j3 h4
+              have g4 := ginv_pushFromCache _ _ L _ i3 j3 g3 h4
+              split at h
+              · simp at h
+              · rename_i st5 ok h5
+                have i5 := inv_writeBlocks _ _ _ i4 h5
+                have j5 := jinv_writeBlocks _ _ _ i4 j4 h5
+                have g5 := ginv_writeBlocks _ _ L _ _ i4 j4 g4 h5
+                have i6 : Inv (if ok = true then st5 else error st5 false) := by
+                  cases ok
+                  · simpa using inv_error false i5.1 (Or.inr (i5.2.1 rfl))
+                  · simpa using i5.1
+                have j6 : JInv P (if ok = true then st5 else error st5 false) := by
+                  cases ok
+                  · simpa using jinv_error' (P := P) false (j5.2 rfl) (Or.inr (i5.2.1 rfl))
+                  · simpa using j5.1 rfl
+                have g6 : GInv S (if ok = true then st5 else error st5 false) := by
+                  cases ok
+                  · simpa using ginv_error (S := S) false g5.2 (Or.inr (i5.2.1 rfl))
+                  · simpa using g5.1 rfl
+                split at h
+                · simp at h
+                · rename_i st6 h6
+                  simp at h; rw [← h.1]
+                  exact ginv_pushFromCache _ _ L _ i6 j6 g6 h6
+
+theorem ginv_run (P : Params) (S : GSess) (L : S.Laws P.codec) (st : St) (ops : List Op) {st' : St}
+    (hi : Inv st) (hj : JInv P st) (hg : GInv S st) (hops : ∀ op ∈ ops, GenOp S op)
+    (h : run P st ops = .ok st') : GInv S st' := by
+  induction ops generalizing st with
+  | nil => simp [run] at h; rw [← h]; exact hg
+  | cons op r ih =>
+    simp only [run] at h
+    split at h
+    · simp at h
+    · rename_i st1 heq
+      have hop : GenOp S op := hops op (by simp)
+      have i1 := inv_step _ _ _ hi heq
+      have j1 : JInv P st1 := jinv_run P st [op] hi hj (by simp [run, heq])
+      refine ih _ i1 j1 ?_ (fun o ho => hops o (by simp [ho])) h
+      cases op with
+      | push p => exact ginv_push _ _ L _ _ hi hj hg hop heq
+      | attach id f =>
+        simp only [step] at heq
+        split at heq
+        · simp at heq
+        · rename_i heq2
+          simp at heq; rw [← heq]
+          exact ginv_attachFdt _ _ L _ _ _ hi hj hg hop heq2
+
+/-- after Drop the genuine-history invariant still holds -/
+theorem ginv_drop {S : GSess} (st : St) (hi : Inv st) (hg : GInv S st) : GInv S (drop st) := by
+  unfold drop
+  split
+  · rename_i hw; exact ginv_error _ hg.toGStat (Or.inr hw)
+  · rename_i hw; exact absurd hw hi.noIdle
+  · exact hg
 
 end Flute.ObjRecv
